@@ -337,8 +337,15 @@ func (n *RegexNode) finalOptimize() *RegexNode {
 		// we've already outlined is problematic.
 		node := rootNode.Children[0] // skip implicit root capture node
 		atomicByAncestry := true     // the root is implicitly atomic because nothing comes after it (same for the implicit root capture)
+		committingAtomic := false    // inside an atomic group that is followed by more pattern
 		for {
 			if node.T == NtAtomic {
+				// An atomic group with something after it commits to the first way its content matches, so a
+				// failed attempt need not have tried every length of a lazy loop inside it: the loop's last
+				// position is then not a safe place to resume (e.g. (?>a+?b?)c on "aac" must match at 1).
+				if !atomicByAncestry {
+					committingAtomic = true
+				}
 				node = node.Children[0]
 				continue
 			} else if node.T == NtConcatenate {
@@ -347,7 +354,7 @@ func (n *RegexNode) finalOptimize() *RegexNode {
 				continue
 			} else if node.N == math.MaxInt32 &&
 				((node.T == NtOneloop || node.T == NtOneloopatomic || node.T == NtNotoneloop || node.T == NtNotoneloopatomic || node.T == NtSetloop || node.T == NtSetloopatomic) ||
-					((node.T == NtOnelazy || node.T == NtNotonelazy || node.T == NtSetlazy) && !atomicByAncestry)) {
+					((node.T == NtOnelazy || node.T == NtNotonelazy || node.T == NtSetlazy) && !atomicByAncestry && !committingAtomic)) {
 				if verifGate(4) {
 					break
 				}
